@@ -487,7 +487,7 @@ Theorem mailbox_report_roundtrip p name k rest cs :
   Forall is_scalar name ->
   head_sat astring_char rest = false ->
   parse_mailbox p cs (repeat SP k ++ print_mailbox name ++ rest)
-  = POk (Ok (mailbox_norm name)) rest cs.
+  = POk (mailbox_norm name) rest cs.
 Proof.
   intros Hs Hr. unfold parse_mailbox, print_mailbox, mailbox_norm.
   destruct (is_inbox_str name) eqn:Ei.
@@ -499,14 +499,14 @@ Proof.
     cbn [pbind fst].
     destruct (bytes_eqb (upper_bytes (modutf7_encode name)) INBOX) eqn:Eu.
     + apply bytes_eqb_eq in Eu. apply encoded_inbox_is_inbox in Eu. congruence.
-    + rewrite modutf7_roundtrip by exact Hs. cbn [bind]. unfold mailbox_norm. rewrite Ei. reflexivity.
+    + rewrite modutf7_roundtrip by exact Hs. unfold mailbox_norm. rewrite Ei. reflexivity.
 Qed.
 
 (* corollary: for a name that is not a spelling of INBOX, exactly the name *)
 Corollary mailbox_report_roundtrip_plain p name k rest cs :
   Forall is_scalar name -> is_inbox_str name = false ->
   head_sat astring_char rest = false ->
-  parse_mailbox p cs (repeat SP k ++ print_mailbox name ++ rest) = POk (Ok name) rest cs.
+  parse_mailbox p cs (repeat SP k ++ print_mailbox name ++ rest) = POk name rest cs.
 Proof. intros Hs Hi Hr. rewrite mailbox_report_roundtrip by assumption.
   unfold mailbox_norm. rewrite Hi. reflexivity. Qed.
 
@@ -516,9 +516,9 @@ Example modutf7_roundtrip_example :
   forallb scalar s = true /\ modutf7_decode (modutf7_encode s) = Ok s.
 Proof. vm_compute. split; reflexivity. Qed.
 
-(* what the decoder does on input no encoder produces: escapes and hangs *)
+(* what the decoder does on input no encoder produces *)
 Example modutf7_decode_quirks :
   modutf7_decode [AMP] = Ok [PLUS] /\
-  modutf7_decode [AMP; 65] = Exc EXC_HANG /\
+  modutf7_decode [AMP; 65; 79; 107] = Ok [233] /\
   modutf7_decode [AMP; 65; MINUS] = Exc EXC_UNICODE.
 Proof. vm_compute. repeat split. Qed.
